@@ -6,7 +6,8 @@
 (* is judged against Format.tla: the three destinations give the text the  *)
 (* directive definitions give (or all signal when the definitions require  *)
 (* an error), and princ-to-string / prin1-to-string of every argument are  *)
-(* what ~A / ~S of it print.  Total: a rejected call is recorded with the  *)
+(* what ~A / ~S of it print (also under other settings of *print-base*,    *)
+(* *print-radix*, *print-case* ..., field agree).  Total: a rejected call is recorded with the  *)
 (* text that was expected and the validation goes on.                      *)
 (***************************************************************************)
 EXTENDS Format, Json
@@ -27,6 +28,8 @@ Judge0(e, dev) ==
                \cup (IF \E i, j \in 1..3 : e.sts[i] # e.sts[j] \/ e.outs[i] # e.outs[j] THEN {"destinations"} ELSE {})
                \cup (IF \E i \in 1..Len(e.args) : e.princ[i] # Str(Princ(e.args[i], dev)) THEN {"princ"} ELSE {})
                \cup (IF \E i \in 1..Len(e.args) : e.prin1[i] # Str(Prin1(e.args[i])) THEN {"prin1"} ELSE {})
+               \* ~A / ~S of an argument and princ / prin1 of it under the same setting of the printer variables (a relation)
+               \cup (IF \E i \in 1..Len(e.agree) : e.agree[i].a # e.agree[i].princ \/ e.agree[i].s # e.agree[i].prin1 THEN {"agree"} ELSE {})
   IN [kinds |-> kinds, st |-> exp.st, want |-> want, why |-> exp.why]
 \* residual: what still disagrees when the definition is altered by the listed deviations (empty: a known finding)
 Judge(e) == LET j == Judge0(e, {}) IN
